@@ -852,6 +852,7 @@ void GridFourier::mergeRefinement(){
     int num_all_points = getNumLoaded() + getNumNeeded();
     values.setValues(std::vector<double>(Utils::size_mult(num_outputs, num_all_points), 0.0));
     acceptUpdatedTensors();
+    max_power = MultiIndexManipulations::getMaxIndexes(points); // the merged points can have larger exponents
 }
 
 void GridFourier::beginConstruction(){
